@@ -56,6 +56,10 @@ func ArgExtras() []ugo.Object {
 		p = append(p, ugo.String(s))
 	}
 	p = append(p, ugo.Bytes("{\"a\":1}"), ugo.Bytes(strings.Repeat("\x00", 33)))
+	// lengths around fixed-size scratch buffers (64 bytes, base64 of 48), and JSON string documents whose
+	// invalid bytes each expand to a 3-byte replacement character
+	p = append(p, ugo.Bytes(strings.Repeat("k", 48)), ugo.Bytes(strings.Repeat("k", 49)), ugo.Bytes(strings.Repeat("k", 64)), ugo.Bytes(strings.Repeat("k", 65)),
+		ugo.String("\"\xff\xff\xff\xff\xff\xff\xff\""), ugo.Bytes("{\"\xff\xfe\xfd\xfc\xfb\xfa\": 1}"))
 	// byte strings that END inside a multi-byte sequence (scanners that look ahead 1 or 2 bytes):
 	// U+2028 is E2 80 A8
 	for _, b := range []string{"\xe2", "\xe2\x80", "\"a\xe2\x80", "\"a\xe2", "\xf0\x9f", "\xf0\x9f\x98", "[1,\"\xe2\x80", "\"\\u20", "\"\\", "\"\xe2\x80\xa8\""} {
@@ -115,7 +119,20 @@ func ArgCore() []ugo.Object {
 // mutate their arguments: sort, delete, append on bytes with spare capacity).
 func Fresh(v ugo.Object) ugo.Object {
 	switch x := v.(type) {
-	case ugo.Array, ugo.Map, ugo.Bytes, *ugo.SyncMap:
+	case ugo.Array:
+		// keep the spare capacity of the pool value (a copy made by Copy() has none)
+		cp := x.Copy().(ugo.Array)
+		if cap(x) > len(x) {
+			grown := make(ugo.Array, len(cp), cap(x))
+			copy(grown, cp)
+			return grown
+		}
+		return cp
+	case ugo.Bytes:
+		cp := make(ugo.Bytes, len(x), cap(x))
+		copy(cp, x)
+		return cp
+	case ugo.Map, *ugo.SyncMap:
 		return x.(ugo.Copier).Copy()
 	}
 	return v
